@@ -12,3 +12,4 @@ import WmModel.Props.C06Old
 #print axioms Wm.RouterLife.run_returns_only_after_closed
 #print axioms Wm.RouterLife.Old.close_race_witness
 #print axioms Wm.RouterLife.Old.close_skips_subscriber_witness
+#print axioms Wm.RouterLife.handle_close_cancels_context_when_close_fails
